@@ -165,6 +165,26 @@ def gen(seed, tier):
                             seg(0, [g.f_long(r.choice([20, 21]), icao, None, bds20([r.randint(1, 26) for _ in range(8)]))])]
                     cases.append(H("C10-d%d" % n, o, segs))
                     n += 1
+    # (e) capability reports change over time: a later BDS 1,7 report adds or withdraws registers; ACAS reports (BDS 3,0) with a
+    #     threat, several, and none again
+    for i in range(16 if tier == "quick" else 160):
+        icao = r.choice(ICAOS)
+        o = {"U": 1} if i % 2 else {}
+        regs = ["40", "50", "60"]
+        first = r.sample(regs, r.randint(0, 2))
+        second = r.sample(regs, r.randint(1, 3))
+        kind = r.choice(regs)
+        segs = [seg(0, [g.f_df11(icao, ca=5)]),
+                seg(0, [g.f_long(20, icao, None, bds17([ADV_BIT[x] for x in first]))]),
+                seg(0, [g.f_long(r.choice([20, 21]), icao, None, clean_reg(g, kind))]),
+                seg(0, [g.f_long(21, icao, None, bds17([ADV_BIT[x] for x in second]))]),
+                seg(0, [g.f_long(r.choice([20, 21]), icao, None, clean_reg(g, kind))]),
+                seg(0, [g.f_long(20, icao, None, bds17([ADV_BIT[x] for x in first]))]),
+                seg(0, [g.f_long(r.choice([20, 21]), icao, None, clean_reg(g, kind))])]
+        for bits in r.sample([0, 1 << 47, 1 << 28, (1 << 47) | (1 << 28), 0, 1 << 47], 4) + [0]:
+            segs.append(seg(0, [g.f_long(r.choice([20, 21]), icao, None, bds30(bits | (r.getrandbits(18) << 1)))]))
+        cases.append(H("C10-e%d" % n, o, segs))
+        n += 1
     # (c) first match wins: a register that satisfies the rules of two registers is decoded as the earlier one only
     for i in range(24 if tier == "quick" else 200):
         icao = r.choice(ICAOS)
@@ -228,6 +248,7 @@ def oracle(parts, outcome, obs):
     fails = []
     prev = None
     use_u = opts.get("U") == "1"
+    adv_spec = "00000"               # register flags of the latest BDS 1,7 report decoded with the gate open
     cap_strict = cap_lenient = 0     # CA of the latest DF11 (+ DF17 on an existing row under -U) / of the latest DF11 or DF17
     for k, (t, lines) in enumerate(segs):
         rows = pyspec.rows_of(osegs[k]) if k < len(osegs) else {}
@@ -245,8 +266,19 @@ def oracle(parts, outcome, obs):
                     if changed:
                         fails.append("segment %d: capability %d < 4 and no -R, yet %s changed" % (k, ca, changed))
                 else:
-                    adv = prev.get("cb", "00000")
+                    adv = adv_spec
                     r17, r40, r50, r60 = dec17(v), dec40(v), dec50(v), dec60(v)
+                    if r17 is not None:
+                        # every accepted capability report is recorded (the latest one counts), not only the first
+                        if row.get("cb") != r17["cb"]:
+                            fails.append("segment %d: BDS 1,7 report advertises %s, the row records %s" % (k, r17["cb"], row.get("cb")))
+                        adv_spec = r17["cb"]
+                    # a BDS 3,0 report is taken as such when its reserved/validity fields allow it (MB bits 16-22 below 48,
+                    # threat-type indicator bits 29-30 not the unassigned value 3)
+                    if mb(v, 1, 8) == 0x30 and mb(v, 16, 22) < 48 and mb(v, 29, 30) != 3:
+                        want_te = "8306" if mb(v, 28, 28) else ("8305" if mb(v, 9, 9) else "-")
+                        if row.get("te") != want_te:
+                            fails.append("segment %d: BDS 3,0 report (ARA bit 41 = %d, MTE = %d) shows threat marker %s, expected %s" % (k, mb(v, 9, 9), mb(v, 28, 28), row.get("te"), want_te))
                     b1, b2 = mb(v, 1, 4), mb(v, 5, 8)
                     coded = (b1, b2) in ((1, 0), (2, 0), (3, 0))
                     # soundness: a field of a register changes only if that register's validity rules hold
